@@ -222,4 +222,54 @@ def runQTasks (l : Lim) : LState → List QTask → List Int
   | _, [] => []
   | s, q :: qs => (handleHookRunQ l s q).2 ++ runQTasks l (handleHookRunQ l s q).1 qs
 
+/-! ## Several hooks in one hooks directory -/
+
+/-- `hook.Manager.Init` → `loadHook` for every executable of the hooks directory: each hook gets the
+limiter `Hook.LoadConfig` built from ITS OWN configuration. The manager keeps no index of limiters and
+nothing else writes `Hook.RateLimiter` (`Facts.c18LimiterUses`, theorem `load_config_shape`), so neither the
+name of a hook (its relative path) nor the other hooks of the directory take part. -/
+def loadHooks (cfgs : List (String × HookCfg)) : List Lim := cfgs.map fun p => hookLimiter p.2
+
+/-- A `Wait` of hook number `k` at time `t`: it touches the state of the limiter of hook `k` only. -/
+def reserveAt (lims : List Lim) (ss : List LState) (k : Nat) (t : Int) : List LState × Option Int :=
+  match lims[k]?, ss[k]? with
+  | some l, some s => (ss.set k (reserve l s t).1, (reserve l s t).2)
+  | _, _ => (ss, none)
+
+/-- The requests `(hook, time)` of all hooks of the directory in the order in which they are made;
+the result is the list of grant times of hook `j`. -/
+def setGrants (lims : List Lim) (j : Nat) : List LState → List (Nat × Int) → List Int
+  | _, [] => []
+  | ss, (k, t) :: rs =>
+    match (if k = j then (reserveAt lims ss k t).2 else none) with
+    | some g => g :: setGrants lims j (reserveAt lims ss k t).1 rs
+    | none => setGrants lims j (reserveAt lims ss k t).1 rs
+
+/-! ## The other tasks of the operator's queues -/
+
+/-- A task as `ShellOperator.taskHandler` dispatches it: a `HookRun` (the only kind that reaches
+`taskHandleHookRun`), `EnableKubernetesBindings` of a hook with `bindings` kubernetes bindings (start-up:
+it queues one Synchronization `HookRun` per binding as head tasks), `EnableScheduleBindings`, anything else. -/
+inductive OpTask where
+  | hookRun (q : QTask)
+  | enableKubernetesBindings (bindings : Nat)
+  | enableScheduleBindings
+  | other
+  deriving Repr
+
+/-- One handler call for a task of the hook. Only `HookRun` touches the hook's limiter — it waits on it;
+no handler re-tunes it (`Facts.c18LimiterTuners = []`: no `SetLimit` / `SetBurst` call in the repository), so the
+limiter `l` of the hook is the same for the whole life of the operator. Returns the limiter, its state and
+the process starts. -/
+def opStep (l : Lim) (s : LState) : OpTask → (Lim × LState) × List Int
+  | .hookRun q => ((l, (handleHookRunQ l s q).1), (handleHookRunQ l s q).2)
+  | .enableKubernetesBindings _ => ((l, s), [])
+  | .enableScheduleBindings => ((l, s), [])
+  | .other => ((l, s), [])
+
+/-- The handler calls for all tasks of one hook, of every type, in the order in which they happen. -/
+def runOps : Lim → LState → List OpTask → List Int
+  | _, _, [] => []
+  | l, s, o :: os => (opStep l s o).2 ++ runOps (opStep l s o).1.1 (opStep l s o).1.2 os
+
 end ShellOp.RateLimit
